@@ -153,6 +153,13 @@ impl Family for MpscFam {
         }
     }
 
+    fn m_no_sched_point(op: &GOp<COp>) -> Option<&'static str> {
+        match op {
+            GOp::Op(COp::DropTx) => Some("no-scheduling-point-before:drop(Sender)"),
+            GOp::Op(COp::DropRx) => Some("no-scheduling-point-before:drop(Receiver)"),
+            _ => None,
+        }
+    }
     fn m_init(cfg: &CCfg, n: usize) -> CM {
         let mut tx_alive = vec![false; n];
         for t in &cfg.tx_threads {
